@@ -803,7 +803,8 @@ def parse_observed(p, src):
             return p.parse(src)
         except ElementPathError as e:
             import re as _re
-            holder['msg'] = _re.sub(r' at 0x[0-9a-fA-F]+', '', str(e.message))   # repr() of objects: addresses
+            # repr() of objects: addresses; values of current-time() etc.: every digit run is masked
+            holder['msg'] = _re.sub(r'[0-9]+', '#', _re.sub(r' at 0x[0-9a-fA-F]+', '', str(e.message)))
             raise
 
     out, site, tok = in_process_guard(call)
